@@ -733,7 +733,10 @@ def gen_neox_plan(rng: random.Random, tier: str, *, restarts: float,
         'hps': hps, 'acc': acc, 'hook': hook,
         'loss_gain': rng.choice([1.0, 3.0]),
         'kfac': {
-            'bucket_cap_mb': rng.choice([0, 1e-4, 25.0]),
+            # from 'every tensor oversized' over 'a few factors per
+            # bucket' to 'everything in one bucket'
+            'bucket_cap_mb': rng.choice([0, 1e-4, 3e-4, 6e-4, 1.5e-3, 4e-3,
+                                         25.0]),
             'assignment_strategy': rng.choice(['compute', 'memory']),
             'prediv': False,
             'symmetry_aware': rng.random() < 0.4,
